@@ -244,8 +244,16 @@ def ensure_random_policy():
                 # the priority on a container is the scheduler's label (a policy may promote or demote work);
                 # it is not the priority of the pipeline
                 label = p.priority if rng.random() < 0.8 else rng.choice(list(type(p.priority)))
+                extra = {}
+                if rng.random() < 0.2:
+                    extra["is_resume"] = True
+                    olds = list(pool.suspending_containers) + list(pool.suspended_containers[-3:])
+                    if olds and rng.random() < 0.7:
+                        extra["container_id"] = rng.choice(olds).container_id
+                if rng.random() < 0.15:
+                    extra["force_run"] = True
                 asg.append(Assignment(ops=ops, cpu=cpu, ram=ram, priority=label, pool_id=pool.pool_id,
-                                      pipeline_id=p.pipeline_id, is_resume=rng.random() < 0.2))
+                                      pipeline_id=p.pipeline_id, **extra))
                 fc -= cpu
                 if not overcommit:
                     fr -= ram
